@@ -708,9 +708,12 @@ def values(d, ctx: Ctx, top=True):
 
 
 def _dd_factory(vd, ctx):
-    """default_factory that unpack_collection produces: the value annotation evaluated by name."""
+    """default_factory of a decoded DefaultDict[K, V]: the (origin) class of V when V denotes a class, else none."""
     h = hint(vd, ctx)
-    return h
+    o = typing.get_origin(h) or h
+    if isinstance(o, type) and o is not typing.Any:
+        return o
+    return None
 
 
 def _hashable_distinct(ks):
